@@ -177,6 +177,9 @@ class ModelMixin2:
             return self.list_elem(v, s, k, node)
         sp = IterSpec(le.lo, le.hi, None, make, self.describe(v, st), ordered=le.ordered)
         sp.listsym = v.sym
+        desc = (st.mon.get('descend_of') or {}).get(v.sym)
+        if desc is not None:
+            sp.live_parent = desc         # Element.iter() walks the live tree
         return sp
 
     def list_elem(self, v: Ref, st: State, k, node):
@@ -712,14 +715,18 @@ class ModelMixin2:
                 return [(self.exc('KeyError', st, node, self.describe(i, st)), st)]
             outs = []
             seen = set()
+            kk = repr(self._vk(i, st))
+            if ('nokey', c.sym, kk) in st.facts:
+                return [(self.exc('KeyError', st, node, f'key {self.describe(i, st)} is not in the mapping'), st)]
             for k, v in d.items:
                 if self._may_equal(k, i) and v not in seen:
                     seen.add(v)
                     outs.append((v, st.copy()))
             if not d.exact and not outs:
                 outs.append((Unknown('dict value'), st.copy()))
-            s2 = st.copy()
-            outs.append((self.exc('KeyError', s2, node, f'key {self.describe(i, s2)} may be missing from the mapping'), s2))
+            if ('haskey', c.sym, kk) not in st.facts:
+                s2 = st.copy()
+                outs.append((self.exc('KeyError', s2, node, f'key {self.describe(i, s2)} may be missing from the mapping'), s2))
             self.stats['forks'] += len(outs) - 1
             return outs
         if isinstance(c, Ref) and c.kind == 'elem':
